@@ -181,6 +181,7 @@ func histSettle(w *cworld, bad func(key, format string, a ...interface{})) bool 
 	for round := 0; round < 10; round++ {
 		w.Sim.ResetLog()
 		hookFaultsBefore := histHookFaults
+		writeFaultsBefore := histWriteFaults
 		w.Sim.Plan = func(r *sim.Request) *sim.Fault {
 			if histWriteFaults > 0 && r.Kind == kit.Leaf && r.Mutating() {
 				histWriteFaults--
@@ -207,6 +208,11 @@ func histSettle(w *cworld, bad func(key, format string, a ...interface{})) bool 
 		histLastErr = err
 		if err != nil {
 			writes++
+		}
+		if histWriteFaults < writeFaultsBefore && err == nil {
+			// (it is the error that makes the work queue come back: a refused write that is not reported is never
+			// retried unless something else happens to wake the parent)
+			bad("refused-write-not-reported", "a child write was refused by the API server (%d) and the sync reported success", histWriteFaultCode)
 		}
 		if histHookFaults < hookFaultsBefore {
 			// the hook did not answer in this sync: nothing may be written for the children on its behalf
